@@ -290,6 +290,19 @@ class Session:
             raise Violation("C07:shell-took-the-terminal-back-while-foreground-members-run:after-stop-and-continue-of-that-member",
                             {"trace": self.trace[-5:], "tpgid": self.s.tpgid(), "gid": gid})
 
+    def fg_finished_job(self, gid):
+        """a background job ends while the shell sits at its prompt (nothing has polled since); `fg` of that job has nothing
+        to wait for and no group to hand the terminal to: the prompt comes straight back and the session goes on as before"""
+        ref = self.job_ref(gid)          # (may ask `jobs` for the id: before the job ends)
+        self.note(("fg-of-a-job-that-has-just-ended",))
+        for t in self.jobs[gid]["tags"]:
+            open(os.path.join(self.sb.vpdir, "stop." + t), "w").close()
+        if not self.wait_until(lambda: not self.live_members(gid), 4.0):
+            raise Inconclusive("job did not finish")
+        time.sleep(0.15)
+        self.s.send("fg%s\r" % ref)
+        self.read_prompt("fg-of-a-finished-job")
+
     def finish_job(self, gid):
         self.note(("finish", "fg" if gid == self.fg else "bg"))
         for t in self.jobs[gid]["tags"]:
@@ -415,7 +428,11 @@ class Session:
                     self.plain_line("empty")
                 if self.rng.random() < 0.3:
                     self.jobs_cmd()
-                self.do_bg(gid)
+                # (... and so must `fg`: the job is listed as running, yet one of its members is not)
+                if self.rng.random() < 0.5:
+                    self.do_fg(gid)
+                else:
+                    self.do_bg(gid)
             elif r < 0.69 and [g for g in self.stopped_jobs() if len(self.live_members(g)) > 1]:
                 # a fully stopped pipeline: one member is continued from outside and then stopped again (or killed);
                 # all live members are stopped once more, and that is what `jobs` must say
@@ -441,8 +458,11 @@ class Session:
                 self.signal_members(gid, sig, self.rng.random() < 0.6)
                 self.plain_line("empty")
             elif r < 0.90 and self.running_bg_jobs():
-                self.finish_job(self.rng.choice(self.running_bg_jobs()))
-                self.plain_line("empty")
+                if self.rng.random() < 0.3:
+                    self.fg_finished_job(self.rng.choice(self.running_bg_jobs()))
+                else:
+                    self.finish_job(self.rng.choice(self.running_bg_jobs()))
+                    self.plain_line("empty")
             else:
                 self.plain_line(self.rng.choice(["empty", "notfound", "failing", "ok"]))
         # wind down: bring a foreground job back, then a final listing and the once-only notice rule
